@@ -814,6 +814,49 @@ def runAllTests (cfg : Cfg) (plugins : List Plugin) (tests : List Test) (repeatC
   | .error f => .error f
   | .ok a => .ok ⟨a.evs ++ [.ret (runnerReturn a.st)], a.reps, runnerReturn a.st, a.st.depth, a.st.current⟩
 
+/-! ## several runner invocations in one process
+
+What a `CommandLineTestRunner` leaves behind in the process when it returns: the static
+`UtestShell::rethrowExceptions_` (written by `initializeTestRun`) and `jmp_buf_index`. A process may
+start any number of runners one after the other (one `RunAllTests` call per group is common on
+targets without a real argv), each with its own command line. -/
+
+structure Process where
+  rethrowExceptions : Bool := false     -- `bool UtestShell::rethrowExceptions_ = false;`
+  depth : Int := 0                      -- jmp_buf_index
+deriving Repr, DecidableEq, Inhabited
+
+/-- `CommandLineTestRunner::initializeTestRun`, the part that reaches the tests through a static:
+    `UtestShell::setRethrowExceptions(arguments_->isRethrowingExceptions());` — an unconditional assignment
+    of the option's value (`optRethrow` = no `-e` on this command line) -/
+def initializeTestRun (optRethrow : Bool) (pr : Process) : Process := { pr with rethrowExceptions := optRethrow }
+
+/-- one runner invocation: its parsed command line (`cfg.rethrow` is the OPTION of this command line),
+    the registry it runs, its repeat count -/
+structure Invocation where
+  cfg : Cfg
+  plugins : List Plugin
+  tests : List Test
+  repeatCount : Nat
+deriving Repr, Inhabited
+
+/-- what the tests of this invocation see: the static flag, not the option -/
+def effectiveCfg (pr : Process) (i : Invocation) : Cfg := { i.cfg with rethrow := pr.rethrowExceptions }
+
+/-- `runAllTestsMain` in a process in state `pr`: `initializeTestRun`, then the run -/
+def runnerInvoke (pr : Process) (i : Invocation) : Process × Except Stop RunOut :=
+  match runAllTests (effectiveCfg (initializeTestRun i.cfg.rethrow pr) i) i.plugins i.tests i.repeatCount pr.depth with
+  | .ok o => ({ initializeTestRun i.cfg.rethrow pr with depth := o.depth }, .ok o)
+  | .error e => (initializeTestRun i.cfg.rethrow pr, .error e)
+
+/-- a sequence of invocations in one process; an exception that leaves a runner ends the process -/
+def runSequence : Process → List Invocation → List (Except Stop RunOut)
+  | _, [] => []
+  | pr, i :: rest =>
+    match runnerInvoke pr i with
+    | (pr1, .ok o) => .ok o :: runSequence pr1 rest
+    | (_, .error e) => [.error e]
+
 /-- `CommandLineArguments::setRepeatCount`: no `-r`: 1; `-r` alone or `-r0`: 2; `-rN`: N -/
 def repeatCountOf : Option (Option Nat) → Nat
   | none => 1
